@@ -1418,6 +1418,35 @@ class OrdEval:
             return t
         return None
 
+    def num(self, t):
+        """integer value of arithmetic over truth values and constants (zext/sext of a condition, sums, bitwise ops, selects)"""
+        h = t[0]
+        if h == 'ci':
+            return t[1]
+        if h == 'cast' and t[1] in ('zext', 'sext', 'trunc'):
+            inner = t[3]
+            c = self.cond(inner) if inner[0] in ('cmp', 'not', 'and', 'or') or term_type(inner) == 'i1' else None
+            if c is not None:
+                return (1 if c else 0) if t[1] != 'sext' else (-1 if c else 0)
+            v = self.num(inner)
+            if v is None:
+                return None
+            if t[1] == 'trunc':
+                return v & ((1 << (type_bits(t[2]) or 64)) - 1)
+            return v
+        if h == 'op' and t[1] in ('add', 'sub', 'or', 'and', 'xor', 'mul'):
+            a, b = self.num(t[3]), self.num(t[4])
+            if a is None or b is None:
+                return None
+            return {'add': a + b, 'sub': a - b, 'or': a | b, 'and': a & b, 'xor': a ^ b, 'mul': a * b}[t[1]]
+        if h == 'sel':
+            c = self.cond(t[1])
+            return None if c is None else self.num(t[2] if c else t[3])
+        if h in ('cmp', 'not', 'and', 'or'):
+            c = self.cond(t)
+            return None if c is None else (1 if c else 0)
+        return None
+
     def cond(self, t):
         h = t[0]
         if t == TRUE:
@@ -1448,8 +1477,20 @@ class OrdEval:
             return self.cond(t[2] if c else t[3])
         if h == 'cmp':
             a, b = self.value(t[2]), self.value(t[3])
-            if a is None or b is None:
-                return None
+            if a is None or b is None or self.rank_of(a) is None or self.rank_of(b) is None:
+                # arithmetic on truth values (branch-free code: the 0/1 results of the comparisons are added, or-ed, ... and the
+                # sum is tested): exact small-integer evaluation
+                x, y = self.num(t[2]), self.num(t[3])
+                if x is None or y is None:
+                    return None
+                w = _term_width(t[2]) or _term_width(t[3]) or 64
+                m = (1 << w) - 1
+                sg = lambda v: (v & m) - (1 << w) if (v & m) >> (w - 1) else (v & m)
+                p = t[1]
+                ops = {'eq': lambda: (x & m) == (y & m), 'ne': lambda: (x & m) != (y & m), 'ult': lambda: (x & m) < (y & m), 'ule': lambda: (x & m) <= (y & m),
+                       'ugt': lambda: (x & m) > (y & m), 'uge': lambda: (x & m) >= (y & m), 'slt': lambda: sg(x) < sg(y), 'sle': lambda: sg(x) <= sg(y),
+                       'sgt': lambda: sg(x) > sg(y), 'sge': lambda: sg(x) >= sg(y)}
+                return ops[p]() if p in ops else None
             ra, rb = self.rank_of(a), self.rank_of(b)
             if ra is None or rb is None:
                 return None
@@ -1706,7 +1747,7 @@ def enum_cases(lits):
             yield assign, subst
 
 
-def merge_calls(calls, limit=8):
+def merge_calls(calls, limit=8, exhaustive=True):
     """Several query sites under mutually exclusive, jointly exhaustive path conditions (a fast path and a slow path)
     are one query: returns a list of (assign, subst, call) or None when the conditions are not of that form."""
     if len(calls) == 1 and calls[0].cond == TRUE:
@@ -1717,9 +1758,10 @@ def merge_calls(calls, limit=8):
     out = []
     for assign, subst in enum_cases(lits):
         on = [c for c in calls if _eval_cond(c.cond, assign)]
-        if len(on) != 1 or any(_eval_cond(c.cond, assign) is None for c in calls):
+        if len(on) > 1 or (exhaustive and not on) or any(_eval_cond(c.cond, assign) is None for c in calls):
             return None
-        out.append((assign, subst, on[0]))
+        if on:
+            out.append((assign, subst, on[0]))
     return out
 
 
@@ -1824,6 +1866,16 @@ def _bit_facts(c, aw, memo):
     E = {}
     if not isinstance(c, tuple) or not c:
         return E, E
+    key = ('facts', c)
+    if key in memo:
+        return memo[key]
+    r = _bit_facts1(c, aw, memo)
+    memo[key] = r
+    return r
+
+
+def _bit_facts1(c, aw, memo):
+    E = {}
     if c[0] == 'not':
         a, b = _bit_facts(c[1], aw, memo)
         return b, a
@@ -1922,11 +1974,11 @@ def _to_bits(t, width, aw, memo, env=None):
                 out.append(0)
         return out[:width]
     if h == 'sel':
+        # facts of this select's own condition only: threading the facts of all enclosing selects down the arms makes the
+        # memo key path-dependent and the evaluation exponential on nests of early exits
         ft, ff = _bit_facts(t[1], aw, memo)
-        e0 = dict(env or ())
-        ft, ff = {**e0, **ft}, {**e0, **ff}
-        a = to_bits(t[2], width, aw, memo, frozenset(ft.items()) if ft else None)
-        b = to_bits(t[3], width, aw, memo, frozenset(ff.items()) if ff else None)
+        a = to_bits(t[2], width, aw, memo)
+        b = to_bits(t[3], width, aw, memo)
         out = []
         for x, y in zip(a, b):
             if x == y:
